@@ -200,4 +200,19 @@ PROPS = {
                        'NOT decided: that the loop terminates (liveness), the interplay with Start\'s own marker counters, and binary_connection choosing which side is cached.',
         'assumptions': ['R-CHAN / R-PROTO environment contracts of the links (see unit assumptions)', 'termination of the loop and marker accounting in Start::next across rounds: not decided here (Start::next is under contract in unit start_next for a single-input receiver model)'],
     },
+    'C08': {
+        'level': 'proof',
+        'units': [
+            {'engine': 'verus', 'name': 'hash_join', 'tier': 'quick', 'role': 'JoinLocalHash::{add_item, side_ended}, JoinVariant::{left_outer,right_outer} + lemma_inner_history (all interleavings) + refinement lemmas'},
+            {'engine': 'verus', 'name': 'binary_select', 'tier': 'quick', 'role': 'the two-input receiver that feeds every join: each side delivered completely, in order, wrapped in its variant, with the side end marker before the FlushAndRestart that completes the iteration'},
+        ],
+        'explanation': 'NARROWED scope: the local hash join (inner / left / outer), Verus. Per-call contracts of JoinLocalHash::add_item (an arriving element is paired, in order, with every element the other side '
+                       'has stored under its key; if there is none and the other side has ended and this side is outer it is emitted once padded with None; it is stored for future matches iff the other side '
+                       'has not ended; its key is recorded iff the other side is outer) and side_ended (every element the other side stored under a key the ending side never saw is emitted once padded with '
+                       'None, in an arbitrary key order; the other side\'s store is emptied). lemma_inner_history proves over the abstract machine defined by these two relations that for EVERY '
+                       'interleaving of the two sides and of their end markers the matched pairs emitted under each key are exactly the relational join (each pair once). '
+                       'NOT decided: JoinLocalHash::next (which flags and pair constructors it passes; its asserts at FlushAndRestart), the exact multiset of None-padded tuples over a whole history, '
+                       'sort-merge join, keyed-stream join, interval join, ship strategies (same key hash on both sides).',
+        'assumptions': ['HashMap/HashSet by their map/set views; drain order arbitrary', 'JoinLocalHash::next, JoinLocalSortMerge, keyed_join, IntervalJoin, ship.rs: not under contract', 'correspondence between the add_item/side_ended contracts and the abstract machine js_step/js_out: same clauses (refinement lemmas for the emitted tuples; the stored-state clauses are syntactically the same expressions)'],
+    },
 }
